@@ -581,20 +581,24 @@ pub fn gen_world(opts: &WorldOpts) -> World {
             }
             _ => {
                 shape_name = "fp extreme";
-                r.fp = [u64::MAX - 3, u64::MAX - 7, u64::MAX - 15, sbase + slen as u64 - w, 1, if w == 4 { 0xffff_fff8 } else { u64::MAX - 8 }][rng.below(6) as usize];
+                r.fp = [u64::MAX - 3, u64::MAX - 7, u64::MAX - 15, (sbase + slen as u64).wrapping_sub(w), 1, if w == 4 { 0xffff_fff8 } else { u64::MAX - 8 }, u64::MAX - 17, u64::MAX - 20, u64::MAX - 24, u64::MAX - 33][rng.below(10) as usize];
             }
         }
         let id = 0x1000 + t as u32;
-        let ctx = context_section(arch, &r, &mut rng);
-        let mem_addr = if adv && chance("dump.stack.top_of_space", 1, 24) {
+        let mem_addr = if adv && chance("dump.stack.top_of_space", 1, 16) {
             // stack at the very top of the address space
             let top = if w == 4 { 0x1_0000_0000u64 } else { 0 };
             let a = top.wrapping_sub(slen as u64);
             r.sp = a;
+            // and the frame pointer within a few words of the top
+            if rng.below(2) == 0 {
+                r.fp = top.wrapping_sub(1 + rng.below(48) as u64);
+            }
             a
         } else {
             sbase
         };
+        let ctx = context_section(arch, &r, &mut rng);
         let memory = Memory::with_section(Section::with_endian(e).append_bytes(&stack), mem_addr);
         if use_mem64 {
             // Memory64 regions live in one trailing blob and cannot be cited: the thread's
